@@ -31,6 +31,7 @@ var commands = map[string]func([]string){
 	"kueku":      cmdKuEku,
 	"cfgprobe":   cmdCfgProbe,
 	"plant":      cmdPlant,
+	"gtldgen":    cmdGtldGen,
 }
 
 func main() {
